@@ -49,11 +49,15 @@ def main():
             sh(["git", "-C", SCRATCH, "checkout", "--", "."])
             path = os.path.join(SCRATCH, m["file"])
             src = open(path).read()
-            if src.count(m["old"]) != 1:
-                print(f"{m['id']}: BAD MUTANT (old text occurs {src.count(m['old'])} times)")
+            edits = m.get("edits") or [(m["old"], m["new"])]
+            bad = [o for o, _ in edits if src.count(o) != 1]
+            if bad:
+                print(f"{m['id']}: BAD MUTANT (old text occurs {[src.count(o) for o in bad]} times)")
                 results.append((m["id"], "bad-mutant"))
                 continue
-            open(path, "w").write(src.replace(m["old"], m["new"]))
+            for o, n in edits:
+                src = src.replace(o, n)
+            open(path, "w").write(src)
             suite = ""
             if a.suite and m.get("tests"):
                 env = dict(os.environ, PYTHONPATH=SCRATCH)
